@@ -14,8 +14,9 @@ Require Import Verif.Proofs.C15_sched Verif.Proofs.C15_lock.
 (* the translated programs are the ones the development is about (parameters: write through the
    local, [if views:] guard present, cache cleared by swapping in a new dictionary after registering) *)
 Theorem C15_facts_programs :
-  lookup_prog = std_lookup Local true /\ register_prog = std_register Swap.
-Proof. exact (conj facts_lookup_prog facts_register_prog). Qed.
+  lookup_prog = std_lookup Local true /\ register_prog = std_register Swap /\
+  register_prog_fallback = register_prog.
+Proof. exact (conj facts_lookup_prog (conj facts_register_prog facts_register_prog_fallback)). Qed.
 Print Assumptions C15_facts_programs.
 
 (* cache_inv: whenever no registration is between its two instructions, every entry of the current
